@@ -6,6 +6,7 @@ import (
 	"fmt"
 	"go/types"
 	"net/textproto"
+	"net/url"
 
 	"golang.org/x/tools/go/ssa"
 )
@@ -176,6 +177,70 @@ func (w *World) registerHTTPIntrinsics() {
 			vs = append(vs, mkStr(x))
 		}
 		return e.stringSlice(vs...)
+	}
+
+	I["(*net/url.URL).String"] = func(e *Exec, fn *ssa.Function, a []Value) Value {
+		p := a[0].(*Pointer)
+		if isNilPtr(p) {
+			e.panicHere("nil pointer dereference (nil *url.URL)")
+		}
+		u := e.load(p).(*StructVal)
+		st := under(p.obj.typ).(*types.Struct)
+		var parts []*Term
+		allConst := true
+		nu := &url.URL{}
+		for i := 0; i < st.NumFields(); i++ {
+			f := getAt(u, []int{i})
+			switch x := f.(type) {
+			case *Term:
+				parts = append(parts, x)
+				if !x.isConst() {
+					allConst = false
+				}
+				if s, ok := x.strVal(); ok {
+					switch st.Field(i).Name() {
+					case "Scheme":
+						nu.Scheme = s
+					case "Opaque":
+						nu.Opaque = s
+					case "Host":
+						nu.Host = s
+					case "Path":
+						nu.Path = s
+					case "RawPath":
+						nu.RawPath = s
+					case "RawQuery":
+						nu.RawQuery = s
+					case "Fragment":
+						nu.Fragment = s
+					case "RawFragment":
+						nu.RawFragment = s
+					}
+				}
+				if x.sort == SBool && x.isConst() {
+					switch st.Field(i).Name() {
+					case "ForceQuery":
+						nu.ForceQuery = x.bval
+					case "OmitHost":
+						nu.OmitHost = x.bval
+					}
+				}
+			case *Pointer:
+				if !isNilPtr(x) {
+					allConst = false // userinfo
+				}
+			}
+		}
+		if allConst {
+			return mkStr(nu.String())
+		}
+		var sargs []*Term
+		for _, t := range parts {
+			if t.sort == SStr {
+				sargs = append(sargs, t)
+			}
+		}
+		return mkUF("url_String", SStr, sargs...)
 	}
 
 	// net.SplitHostPort: results are unconstrained (callers in scope only log them)
